@@ -127,10 +127,20 @@ Full(a) == <<a.m, a.f, a.hc, a.ct, a.l, a.c, a.hn, a.n>>
 (* the decoded segments of a map with their tables applied: two maps with   *)
 (* the same value here differ at most in the order of their tables and in   *)
 (* unused entries (usable for any text, ASCII or not)                       *)
+(* an unmapped segment that ends no mapping (none, or another unmapped one,  *)
+(* before it on its line) attributes nothing: a map re-encoded from a       *)
+(* stream has dropped it, the map a SourceMapSource was given may carry it  *)
+EffectiveSegs(segs) ==
+  LET step(acc, sg) ==
+        LET prev == IF acc = <<>> THEN 0 ELSE Len(acc)
+            closes == prev > 0 /\ acc[prev].gl = sg.gl /\ acc[prev].si >= 0
+        IN IF sg.si < 0 /\ ~closes THEN acc ELSE Append(acc, sg)
+  IN FoldLeft(step, <<>>, segs)
+
 SegValsOfOptMap(optmap) ==
   IF optmap = <<>> THEN <<>>
   ELSE LET map == optmap[1]
-           segs == DecodeMappings(map.m)
+           segs == EffectiveSegs(DecodeMappings(map.m))
        IN [i \in 1..Len(segs) |-> <<segs[i].gl, segs[i].gc, Full(SegAttr(map, segs[i]))>>]
 
 SameCore(as, bs) ==
